@@ -167,7 +167,7 @@ V('A5_invert_in_place', ['C04', 'C16'], 'bits.py', "        s = self._copy()\n  
 V('A6_tobitarray_internal', ['C04'], 'bits.py', "            return self._bitstore._bitarray.copy()", "            return self._bitstore._bitarray", ['A6'])
 V('A1_setbits_shares_again', ['C04'], 'bits.py', "        self._bitstore = bs._bitstore._copy()\n", "        self._bitstore = bs._bitstore\n", ['A1'])
 V('A1_setbits_maybe_shared', ['C04'], 'bits.py', "        self._bitstore = bs._bitstore._copy()\n", "        self._bitstore = bs._bitstore.copy()\n", ['A1'])
-V('A1_fromstring_cached_in_mutable', ['C04', 'C09'], 'bitarray_.py', "        x._bitstore = bitstring.bitstore_helpers.str_to_bitstore(s)._copy()", "        x._bitstore = bitstring.bitstore_helpers.str_to_bitstore(s)", ['A1'])
+V('A1_fromstring_cached_in_mutable', ['C04'], 'bitarray_.py', "        x._bitstore = bitstring.bitstore_helpers.str_to_bitstore(s)._copy()", "        x._bitstore = bitstring.bitstore_helpers.str_to_bitstore(s)", ['A1'])
 V('A3_fromstring_flags_stream', ['C04'], 'bitstream.py', "        x = super().fromstring(s)\n        x._pos = 0\n        return x", "        x = super().fromstring(s)\n        x._pos = 0\n        x._bitstore.immutable = True\n        return x", ['A3'])
 V('A5_const_stream_overwrite', ['C04', 'C20'], 'bitstream.py', "    def __repr__(self) -> str:\n", "    def overwrite(self, bs: BitsType, /, pos: Optional[int] = None) -> None:\n        bs = Bits._create_from_bitstype(bs)\n        self._overwrite(bs, self._pos if pos is None else pos)\n\n    def __repr__(self) -> str:\n", ['A5'])
 V('A4_operand_mutated', ['C04'], 'bitarray_.py', "        bs = self._create_from_bitstype(bs)\n        self._bitstore |= bs._bitstore\n        return self",
